@@ -1,6 +1,7 @@
 package main
 
 import (
+	"strings"
 	"bytes"
 	"encoding/json"
 	"math/rand"
@@ -129,6 +130,14 @@ func genDecCase(r *rand.Rand, big bool) ([]byte, []string) {
 				}
 				if mt == 3 && l >= 3 && r.Intn(5) == 0 {
 					copy(body[r.Intn(l-2):], "\ufffd")
+				}
+				if mt == 3 && big && r.Intn(10) == 0 { // long text made of multi-byte characters only
+					ch := []string{"\u3042", "\u00e9", "\U0001F310"}[r.Intn(3)]
+					body = []byte(strings.Repeat(ch, []int{32768, 32769, 49152, 65537}[r.Intn(4)]/len(ch)+r.Intn(3)))
+					if r.Intn(2) == 0 {
+						body = append([]byte("a"), body...)
+					}
+					l = len(body)
 				}
 				if mt == 2 {
 					r.Read(body)
